@@ -39,6 +39,16 @@ OPEN += [
     ("KF-C08-2", "C08", "C08|cannot_rebuild|class=AdaptiveForceBias|type=NoFromDict|where=?", FB_WHAT),
 ]
 
+OPEN += [
+    ("KF-C03-1", "C03", "C03|independent_exchange_moves_in_one_trial_corrupt_bookkeeping|driver=GrandCanonical|table=plain_composite_of_exchange_moves",
+     "a plain CompositeMove holding two independently deciding ExchangeMove objects (the documented way to give each its own "
+     "bias; also reachable as (disp + exch) + exch) can insert and then delete, or delete twice, in ONE trial; the exchange "
+     "context keeps one flat list of added and one of deleted indices (and the moves' labels are only updated after the "
+     "trial), so the numberings mix: rejected trials raise IndexError/ValueError in revert_state/reinsert_atoms or restore "
+     "the wrong atoms, accepted ones misalign labels (mc/contexts.py ExchangeContext, moves/exchange.py). Delete-then-insert "
+     "in one trial (a swap) works and is exercised by the other checks"),
+]
+
 # (property, repo commit, what failed, signatures the check printed on the pre-fix tree)
 FIXED = [
     ("C06", "7361bba", "Driver(seed=0) replaced the seed by a random one: two runs with seed=0 diverged",
